@@ -66,7 +66,7 @@ fn updated<'a>(updates: &'a StateUpdates, node: &NodeId, partition: PartitionNum
     }
 }
 
-fn post_field<V: ScryptoDecode>(db: &Db, updates: &StateUpdates, node: &NodeId, partition: PartitionNumber, f: u8) -> Option<V> {
+pub fn post_field<V: ScryptoDecode>(db: &Db, updates: &StateUpdates, node: &NodeId, partition: PartitionNumber, f: u8) -> Option<V> {
     match updated(updates, node, partition, &SubstateKey::Field(f)) {
         Some(Some(bytes)) => scrypto_decode::<FieldSubstate<V>>(bytes).ok().map(|s| s.into_payload()),
         Some(None) => None,
